@@ -3,7 +3,7 @@ EXTENDS Shapes, Json
 MCEntries == {"set_dry", "set_apply", "get", "sync", "xml", "import_json", "import_xml"}
 TypeLeaves == {"ty.i8", "ty.i64", "ty.u8", "ty.u64", "ty.d2", "ty.d18", "ty.b", "ty.e", "ty.en", "ty.idr", "ty.un", "ty.un2", "ty.str", "ty.bin", "ty.bits",
                "ty.ll-u8", "ty.ll-str", "ty.ll-d2", "ty.ll-idr"}
-MCNodes == {"root", "container", "presence", "list", "list2", "list3", "entry", "entry2", "entry3", "leaf.string", "leaf.uint", "leaf.enum", "leaf.leafref",
+MCNodes == {"root", "container", "container2", "presence", "list", "list2", "list3", "entry", "entry2", "entry3", "leaf.string", "leaf.uint", "leaf.enum", "leaf.leafref",
             "leaf.must", "leaf.state", "leaflist", "keyleaf", "keyleaf2", "choice", "entryleaf", "entry2leaf", "entry3leaf", "augmented", "presenceleaf"} \cup TypeLeaves
 MCListNodes == {"entry", "entry2", "entry3", "keyleaf", "keyleaf2", "choice", "entryleaf", "entry2leaf", "entry3leaf", "leaf.enum"}
 MCMultiKey == {"entry2", "entry3", "keyleaf2", "entry2leaf", "entry3leaf"}
@@ -12,7 +12,8 @@ MCKeyShapes == {"ok", "none", "one_missing", "extra", "empty_value", "wrong_name
 MCValKinds == {"nil", "unset", "string", "string_empty", "string_num", "ascii", "int_neg", "int_min", "uint", "uint_max", "bool", "bytes", "decimal", "decimal_prec",
                "double", "double_nan", "float", "empty", "ll_empty", "ll_strings", "ll_nested", "ll_nilelem", "ll_mixed", "json_num", "json_str", "json_obj_empty",
                "json_arr_empty", "json_null", "json_deep", "json_malformed", "json_unknown_member", "json_obj_for_leaf", "json_list_ok", "json_list_nokey",
-               "json_list_scalar", "ietf_prefixed", "ietf_bad_prefix", "json_bigint", "json_float_for_int", "any_nil", "protobytes", "idref_unknown", "idref_nil"}
+               "json_list_scalar", "ietf_prefixed", "ietf_bad_prefix", "json_bigint", "json_float_for_int", "any_nil", "protobytes", "idref_unknown", "idref_nil",
+               "members_null", "members_num", "members_bool", "members_str", "members_arr_empty", "members_arr", "members_arr_null", "members_arr_nested", "members_obj_empty", "members_obj"}
 MCTextVals == {"string", "string_empty", "string_num", "json_obj_empty", "ll_strings", "json_deep", "json_unknown_member", "json_list_nokey", "json_bigint"}
 \* emission only: the behaviours of the one-step machine are checked with small sets (MCShapesLive.cfg)
 ESpec == phase = "idle" /\ cur = None /\ outcome = "-" /\ [][UNCHANGED vars]_vars
